@@ -161,7 +161,7 @@ def verify_function(chk, fname, entry, post=None, timeout_ms=10000, max_paths=40
         open_names = [n for n, insts in by_name.items() if (only is None or only(n))
                       and any(i['verdict'] != 'unsat' and i.get('residual') != 'unsat' for i in insts)
                       and not any(i['verdict'] == 'sat' and i.get('reproduced') for i in insts)]
-        if open_names:
+        if open_names or bad:
             refuted = refute(open_names) or {}
     for n, insts in by_name.items():
         if only is not None and not only(n):
@@ -202,5 +202,16 @@ def verify_function(chk, fname, entry, post=None, timeout_ms=10000, max_paths=40
             detail['reason'] = unk[0].get('reason', '')
             detail['undecided_paths'] = [(i['pi'], i['describe'][:60]) for i in unk][:12]
             chk.obligation(n, fname, 'z3', report.UNDECIDED, tsum, detail=detail)
+    # counterexamples found by the model query for clauses that the (failed / unsupported) unbounded run did not even
+    # get to state: a natively reproduced violation is reported, whatever happened to the proof attempt
+    for n0, tup in refuted.items():
+        if n0 in by_name or not tup[2]:
+            continue
+        if only is not None and not only(n0):
+            continue
+        n = rename(n0) if rename is not None else n0
+        chk.obligation(n, fname, 'bounded-model-query+replay', report.VIOLATED, 0.0,
+                       detail={'refuted_by': 'bounded model query; the unbounded proof attempt did not reach this clause'},
+                       model=tup[0], replay=tup[1], reproduced=tup[2])
     fr.wall = time.time() - t0
     return fr
